@@ -22,6 +22,8 @@ from the TMP record; vault and incentive analogues. R6: remove_* removes exactly
 existence check. R7: the router stores a route only after simulate_swap_operations succeeded for it, and resolves every hop
 through query_pair_info on CONFIG.terraswap_factory. Pagination completeness and key-collision freedom are statements
 about runtime key bytes and are not decided.
+R8: each listing resumes at Bound::ExclusiveRaw(cursor || k) with one constant byte k <= 0x20 appended to the returned
+cursor (a larger k skips stored keys that extend the cursor, e.g. uusd -> uusdc).
 """
 ASSUMPTIONS = ["the child's instantiate stores the InstantiateMsg asset data it is given (pair/trio/vault instantiate are covered for fees/flags by C17/C18)"]
 
@@ -476,9 +478,47 @@ def check_router(ctx, model):
                        "hop executed/simulated at %s" % sorted(map(repr, pa))[:3], w.where(b))
 
 
+CURSOR_FNS = ["terraswap_factory::state::calc_range_start", "terraswap_factory::state::trio_calc_range_start",
+              "vault_factory::state::calc_range_start", "incentive_factory::queries::get_incentives::calc_range_start"]
+
+
+def check_cursor_successor(ctx, model):
+    """R8: a listing resumes at Bound::ExclusiveRaw(cursor || k). Every stored key that extends the cursor by a byte
+    below k is skipped, so k must lie below every byte an asset label can contain: labels are bech32 addresses and
+    bank denoms, printable ASCII above 0x20, hence k <= 0x20 (the code uses 1). The byte is appended to the cursor
+    bytes themselves and that vector is what the function returns."""
+    for p in CURSOR_FNS:
+        cl = [x for x in model.fnsrc if x.startswith(p + "::{closure#0}") and x.count("{closure") == 1]
+        if not cl or p not in model.fnsrc:
+            ctx.missing("C19-R8", "cursor function %s and its closure" % p)
+            continue
+        ctx.view(p, "C19-R8")
+        cv = ctx.view(cl[0], "C19-R8")
+        pushes = cv.calls_to(r"^std::vec::Vec::push$")
+        ks = [const_of(cv, t["args"][1], cv.at_term(b)) for b, t in pushes]
+        ret = [x for x in cv.origins_of_place({"l": 0, "p": []}) if x.kind != "err"]
+        recv = [cv.origins_of_operand(t["args"][0], at=cv.at_term(b)) for b, t in pushes]
+        same = len(pushes) == 1 and bool(ret) and set(ret) == set(recv[0])
+        ok = len(pushes) == 1 and ks[0] is not None and 0 <= ks[0] <= 0x20 and same
+        ctx.ob("C19-R8", "%s|successor-byte" % p, ok,
+               "cursor successor appends %s to %s and returns %s (one constant byte <= 0x20 appended to the returned cursor)" % (
+                   [str(k) for k in ks], [sorted(map(repr, r)) for r in recv], sorted(map(repr, ret))), cv.where())
+        # the cursor is used as the exclusive lower bound of an ascending range
+        users = [q for q in model.fnsrc if not q.startswith(p) and any(c == p for _, c, _ in model.callees(q))]
+        if not users:
+            ctx.missing("C19-R8", "caller of %s" % p)
+        for q in users:
+            uv = model.view(q)
+            excl = any("Bound::ExclusiveRaw" in c for _, c, _ in model.callees(q)) or any(
+                s_["rv"]["r"] == "agg" and s_["rv"].get("variant") == "ExclusiveRaw" for _, _, s_ in uv.iter_stmts())
+            incl = any("Bound::InclusiveRaw" in c or "Bound::Inclusive" in c for _, c, _ in model.callees(q))
+            ctx.ob("C19-R8", "%s|exclusive-bound" % q, excl and not incl, "cursor of %s wrapped in Bound::ExclusiveRaw: %s" % (p.split("::")[-1], excl), uv.where())
+
+
 def run(ctx):
     model = ctx.model()
     check_key_fns(ctx, model)
+    check_cursor_successor(ctx, model)
     check_registry_keys(ctx, model)
     check_duplicates(ctx, model)
     check_reply_ids(ctx, model)
